@@ -349,7 +349,8 @@ def login(ctx, script, pv=757, online=True, token=True, message='text',
             if sentinel:
                 es, et = et, es
             try:
-                okc = privkey.decrypt(et, padding.PKCS1v15()) == \
+                okc = body[0] == rid and \
+                    privkey.decrypt(et, padding.PKCS1v15()) == \
                     bytes(vals['verify_token']) and \
                     len(privkey.decrypt(es, padding.PKCS1v15())) == 16
             except ValueError:
